@@ -31,6 +31,12 @@ CRSS = [
 GEOG = [("epsg4326", "EPSG:4326"), ("longlat", {"proj": "longlat", "datum": "WGS84"})]
 
 
+# free-text values an area id / description may hold and a YAML round trip must keep as they are
+EDGE_STRINGS = ["", " ", "0", "0.0", "null", "Null", "~", "true", "False", "no", "on", "2023", "1e3", "0x1F", "1_000", ".inf", ".nan", "2001-01-01",
+                "a: b", "key:", "# hash", "x #y", "'q'", '"dq"', "it's", "line1\nline2", "tab\there", "\u00fcn\u00ef-\u00e7\u00f8d\u00e9", "- dash", "-", "[a, b]", "{a: b}",
+                "trailing ", " leading", "%pct", "&anchor", "*alias", "!tag", "|", ">", "?", "@at", "`bt", "a,b", "::", "long text " * 30]
+
+
 def _fr(v):
     return Fraction(float(v))
 
@@ -276,10 +282,11 @@ def suite_yaml(ctx):
             areas.append(AreaDefinition(nm, f"description of {nm}", "", proj, w, h, ext))
 
     def compare(orig, back, how):
-        inp = {"area_id": orig.area_id, "crs": str(orig.crs.to_dict())[:80], "extent": [float(v) for v in orig.area_extent], "shape": list(orig.shape), "via": how}
+        inp = {"area_id": orig.area_id, "description": orig.description, "crs": str(orig.crs.to_dict())[:80], "extent": [float(v) for v in orig.area_extent],
+               "shape": list(orig.shape), "via": how}
         probs = []
         if back.area_id != orig.area_id or back.description != orig.description:
-            probs.append("id / description changed")
+            probs.append(f"id / description changed: loaded ({back.area_id!r}, {back.description!r}), dumped ({orig.area_id!r}, {orig.description!r})")
         if back.shape != orig.shape:
             probs.append(f"shape {back.shape} instead of {orig.shape}")
         else:
@@ -370,6 +377,55 @@ def suite_yaml(ctx):
                             break
                         if back is not None:
                             compare(truth[aid], back, f"load_area(file history {hno}.{step})")
+            # ids and descriptions are free text: strings that YAML (or a loader testing truthiness / type) could mistake for
+            # something else - empty, blank, null-, bool-, number-, date-like, YAML indicators, quotes, line breaks - must come
+            # back as the very same strings, through every route, whatever the grid
+            for rnd in range(2 if ctx.quick else 12):
+                descs = [""] + r.sample(EDGE_STRINGS, 5 if ctx.quick else 12)
+                ids = r.sample([s_ for s_ in EDGE_STRINGS if s_], 3 if ctx.quick else 8)
+                sareas = []
+                with warnings.catch_warnings():
+                    warnings.simplefilter("ignore")
+                    for k, (aid, desc) in enumerate([(f"s{rnd}_{i}", d) for i, d in enumerate(descs)] +
+                                                    [(i_, r.choice(["plain description", i_, ""])) for i_ in ids]):
+                        src_a = r.choice(areas)
+                        h2, w2 = r.randrange(1, 30), r.randrange(1, 30)
+                        sareas.append(AreaDefinition(aid, desc, "", src_a.crs, w2, h2, tuple(float(v) for v in src_a.area_extent)))
+                for a in sareas:
+                    ctx.count("yaml.strings.description." + ("empty" if a.description == "" else "id" if a.description == a.area_id else "other"))
+                    back = loads(lambda: load_area_from_string(a.dump(), a.area_id), "strings: load_area_from_string(one, id)", a)
+                    if back is not None:
+                        compare(a, back, "strings: load_area_from_string(one, id)")
+                    back = loads(lambda: load_area_from_string(a.dump()), "strings: load_area_from_string(one)", a)
+                    if back is not None:
+                        compare(a, back, "strings: load_area_from_string(one)")
+                many = "".join(a.dump() for a in sareas)
+                loaded = loads(lambda: load_area_from_string(many), "strings: load_area_from_string(many)")
+                if loaded is not None and len(loaded) != len(sareas):
+                    ctx.fail("area_config.load_area_from_string", "number of areas loaded from a multi-area string differs",
+                             {"ids": [a.area_id for a in sareas], "got": len(loaded)}, size=5)
+                elif loaded is not None:
+                    for a, b in zip(sareas, loaded):
+                        compare(a, b, "strings: load_area_from_string(many)")
+                spath = os.path.join(tmp, f"strings{rnd}.yaml")
+                if rnd % 2:
+                    for a in sareas:
+                        a.dump(spath)         # file name: appends
+                else:
+                    with open(spath, "a", encoding="utf-8") as fh:
+                        for a in sareas:
+                            a.dump(fh)        # file-like object
+                whole = loads(lambda: load_area(spath), "strings: load_area(file)")
+                if whole is not None and len(whole) != len(sareas):
+                    ctx.fail("area_config.load_area", "number of areas loaded from a multi-area file differs",
+                             {"ids": [a.area_id for a in sareas], "got": len(whole)}, size=5)
+                elif whole is not None:
+                    for a, b in zip(sareas, whole):
+                        compare(a, b, "strings: load_area(file)")
+                for a in r.sample(sareas, min(4, len(sareas))):
+                    back = loads(lambda: load_area(spath, a.area_id), "strings: load_area(file, id)", a)
+                    if back is not None:
+                        compare(a, back, "strings: load_area(file, id)")
         finally:
             import shutil
             shutil.rmtree(tmp, ignore_errors=True)
